@@ -3,7 +3,7 @@ UNIT = dict(
     uses=["use std::sync::Arc;"],
     prelude=["upd_opaque.rs", "vecqueue.rs"],
     rules=["updmisc", "forvec", "sig_upd"],
-    forvec=["candidates"],
+    forvec=["candidates", "retired"],
     items=[
         ("error_enum", "e"),
         ("impl", "i", "FeoxStore", ["note_expired_record?", "update_record_with_ttl", "update_record_with_ttl_bytes", "retire_expired_if_current"], {"header": "impl FeoxStore {"}),
